@@ -487,6 +487,20 @@ def run_check(pid, tier, seed, module, replay=None):
         module.run(ctx)
     except DriverError as err:
         ctx.tie_broken("correspondence", "driver:" + pid, str(err))
+    except TimeoutError:
+        raise
+    except Exception as err:  # pylint: disable=broad-except
+        # An exception that escapes the harness while it drives the real code: if it was raised inside the
+        # code under test (a frame under REPO/polyply) the code no longer behaves as the model says on a
+        # harness-built input -> the correspondence is broken (reported, with the traceback, by the verdict);
+        # an exception raised by the harness itself stays a harness error (exit 2).
+        frames = traceback.extract_tb(err.__traceback__)
+        in_repo = any(os.path.realpath(f.filename).startswith(os.path.realpath(os.path.join(REPO, "polyply")))
+                      for f in frames)
+        if not in_repo:
+            raise
+        ctx.tie_broken("correspondence", "real-code-raised-while-driven-by-harness:" + type(err).__name__,
+                       "".join(traceback.format_exception(type(err), err, err.__traceback__))[-3000:])
     # 5. verdict
     return finish(ctx)
 
